@@ -67,6 +67,7 @@ type Contract struct {
 	Covers   []Clause
 	Guards   []Clause
 	CallGuards  []PatGuard
+	GhostDefs   []GhostDef
 	StoreGuards []PatGuard
 	Modifies []ast.Expr
 	ModText  []string
@@ -77,6 +78,11 @@ type Contract struct {
 	Loops    []*LoopSpec
 	Src      string
 	Props    []string // property ids this contract's clauses are tagged with
+}
+
+type GhostDef struct {
+	LHS, RHS ast.Expr
+	Text     string
 }
 
 type PatGuard struct {
@@ -449,6 +455,20 @@ func (cs *ContractSet) LoadFile(path, defaultPkg string) {
 					c.Label = fmt.Sprintf("guard%d", len(cur.Guards)+1)
 				}
 				cur.Guards = append(cur.Guards, c)
+			case "ghost-def":
+				// ghost-def <ghost lvalue> = <expr>   (definition of this function's effect on a ghost field)
+				i := strings.Index(rest, " = ")
+				if i < 0 {
+					fail(fmt.Errorf("%s: bad ghost-def", src))
+					continue
+				}
+				l, err1 := parseSpecExpr(strings.TrimSpace(rest[:i]))
+				r, err2 := parseSpecExpr(strings.TrimSpace(rest[i+3:]))
+				if err1 != nil || err2 != nil {
+					fail(fmt.Errorf("%s: bad ghost-def expression", src))
+					continue
+				}
+				cur.GhostDefs = append(cur.GhostDefs, GhostDef{l, r, rest})
 			case "cover":
 				c, err := parseClause(rest, src)
 				if err != nil {
